@@ -73,20 +73,25 @@ type BackgroundTaskManager struct {
 func (ts *BackgroundTaskManager) DoPrioritizedTask() {
 	// Notify the prioritized task execution to background tasks.
 	ts.prioritizedTaskStartNotifyMu.Lock()
+	verifEvent("prio-pre", 0, 0)
 	atomic.AddInt64(&ts.prioritizedTasks, 1)
 	close(ts.prioritizedTaskStartNotify)
 	ts.prioritizedTaskStartNotify = make(chan struct{})
+	verifEvent("prio-begin", 0, 0)
 	ts.prioritizedTaskStartNotifyMu.Unlock()
 }
 
 // DonePrioritizedTask tells the manager that we've done a prioritized task
 // and don't want background tasks to disturb resources(CPU, NW, etc...)
 func (ts *BackgroundTaskManager) DonePrioritizedTask() {
+	verifEvent("prio-end", 0, 0)
 	go func() {
 		// Notify the task completion after `ts.prioritizedTaskSilencePeriod`
 		// so that background tasks aren't invoked immediately.
 		time.Sleep(ts.prioritizedTaskSilencePeriod)
+		verifEvent("dec-pre", 0, 0)
 		atomic.AddInt64(&ts.prioritizedTasks, -1)
+		verifEvent("prio-dec", 0, 0)
 		ts.prioritizedTaskDoneCond.L.Lock()
 		ts.prioritizedTaskDoneCond.Broadcast()
 		ts.prioritizedTaskDoneCond.L.Unlock()
@@ -98,6 +103,7 @@ func (ts *BackgroundTaskManager) DonePrioritizedTask() {
 // execution of all background tasks. Background task must be able to be
 // cancelled via context.Context argument and be able to be restarted again.
 func (ts *BackgroundTaskManager) InvokeBackgroundTask(do func(context.Context), timeout time.Duration) {
+	vid := verifInvoke()
 	for {
 		// Wait until all prioritized tasks are done
 		for atomic.LoadInt64(&ts.prioritizedTasks) > 0 {
@@ -115,11 +121,15 @@ func (ts *BackgroundTaskManager) InvokeBackgroundTask(do func(context.Context), 
 		if func() bool {
 			ts.backgroundSem.Acquire(context.Background(), 1)
 			defer ts.backgroundSem.Release(1)
+			verifEvent("acquire", vid, 0)
+			defer verifEvent("release", vid, 0)
 
 			// Get notify the prioritized tasks execution.
 			ts.prioritizedTaskStartNotifyMu.Lock()
+			verifEvent("decide-pre", vid, 0)
 			ch := ts.prioritizedTaskStartNotify
 			tasks := atomic.LoadInt64(&ts.prioritizedTasks)
+			verifEvent("decide", vid, tasks)
 			ts.prioritizedTaskStartNotifyMu.Unlock()
 			if tasks > 0 {
 				return false
@@ -132,6 +142,7 @@ func (ts *BackgroundTaskManager) InvokeBackgroundTask(do func(context.Context), 
 				ctx, cancel = context.WithTimeout(context.Background(), timeout)
 			)
 			defer cancel()
+			verifEvent("start", vid, 0)
 			go func() {
 				do(ctx)
 				close(done)
@@ -140,10 +151,14 @@ func (ts *BackgroundTaskManager) InvokeBackgroundTask(do func(context.Context), 
 			// Wait until the background task is done or canceled.
 			select {
 			case <-ch: // some prioritized tasks started; retry it later
+				verifEvent("cancel-pre", vid, 0)
 				cancel()
+				verifEvent("cancel", vid, 0)
 				<-done // wait for the cancelled task to return: executions of one task must never overlap
+				verifEvent("join", vid, 0)
 				return false
 			case <-done: // All tasks completed
+				verifEvent("finish", vid, 0)
 			}
 			return true
 		}() {
